@@ -32,9 +32,27 @@ MOD = 'spatialpandas.dask'
 COLS = ['x0', 'y0', 'x1', 'y1']
 
 
+class _AsLambda:
+    """A nested `def f(s): return <expr>` seen as `lambda s: <expr>`."""
+
+    def __init__(self, fn):
+        self.args = fn.args
+        self.body = fn.body[-1].value
+
+
 def _lambda_body(call):
     if call.args and isinstance(call.args[0], ast.Lambda):
         return call.args[0]
+    if call.args and isinstance(call.args[0], ast.Name):
+        # a nested one-statement def used as the mapped callable
+        n = call
+        while n is not None and not isinstance(n, (ast.FunctionDef,)):
+            n = getattr(n, '_parent', None)
+        if n is not None:
+            for st in n.body:
+                if isinstance(st, ast.FunctionDef) and st.name == call.args[0].id and st.body and isinstance(st.body[-1], ast.Return) \
+                        and all(isinstance(x, (ast.Return, ast.Expr)) for x in st.body):
+                    return _AsLambda(st)
     return None
 
 
